@@ -304,9 +304,8 @@ Definition split16_get (z : list N) : option (N * N) := split16_get_at z 0.
 Definition split16_getlen (z : list N) : N := split16_getlen_at z 0.
 Definition split16_getlen_quick (z : list N) : N := split16_getlen_quick_at z 0.
 
-(* EXTRACT: byte_atz ext_put_fixed ext_put_fixed_quick_medium ext_get ext_get_quick_medium
-   split_length_var split_length split_put split_getlen_quick_at split_getlen_at split_get_at
-   split_get split_getlen split_getlen_quick split_rev_put_reversed split_rev_put_forward
-   split_rev_get_at
+(* EXTRACT: split_length_var split_length split_put split_getlen_quick_at split_getlen_at
+   split_get_at split_get split_getlen split_getlen_quick split_rev_put_reversed
+   split_rev_put_forward split_rev_get_at
    split16_length_var split16_length split16_put split16_getlen_quick_at split16_getlen_at
    split16_get_at split16_get split16_getlen split16_getlen_quick *)
